@@ -314,7 +314,11 @@ def check_clone_faithful_table(F, R, prefix, inst):
                 bad = f"a `{v}` is cloned as `{ret[2]}`"
                 break
             src = ("as", ("arg", 1), v) if vs else ("arg", 1)
+            vinfo = [x for x in (info or {}).get("variants", []) if x["name"] == v] or (info or {}).get("variants", [])[:1]
+            ftys = [f_.get("ty", "") for f_ in (vinfo[0]["fields"] if vinfo else [])]
             for j, f in enumerate(ret[3]):
+                if j < len(ftys) and ftys[j].startswith("std::marker::PhantomData"):
+                    continue
                 if f != ("field", src, j):
                     bad = f"field {j} of the cloned `{v}` is not the clone of field {j} of self"
                     break
